@@ -45,6 +45,10 @@ def cases(tier, seed):
         if with_species and k >= 2 and not any(x.startswith("Y(") for x in names):
             names[-1] = rng.choice(SPECIES)
         rng.shuffle(names)
+        if i % 8 == 6 and with_species:      # scale: eleven species whose names are 12 .. 44 characters long
+            long_ = [f"Y(NC12H26OOHX{j}{'Q' * (0 if i % 16 == 6 else 30)})" for j in range(11)]
+            names = [n for n in names if not n.startswith("Y(")][:3] + long_
+            rng.shuffle(names)
         if i % 8 == 1 and k >= 2:     # two names that differ only in letter case
             a, b = [("temp", "Temp"), ("HeatRelease", "heatrelease"), ("foo", "FOO"), ("zeta", "Zeta")][(i // 8) % 4]
             names = [n for n in names if n not in (a, b)][:k - 2] + [a, b]
